@@ -65,6 +65,8 @@
 EXTENDS BrokerAbs, TLC
 
 CONSTANTS Pubs, K, Subs, W, Parallel, Backend, Cap, Buf,
+          CtlBuf,            \* capacity of subCh / unsubCh: the code uses BufferSize (= Buf); any other value is a what-if
+          Redundant,         \* how many redundant Unsubscribe calls (of a channel already unsubscribed) may be made
           StatsIds, WaitIds, StopIds,
           AutoRead,          \* subscribers receive from the moment Subscribe returns, for ever
           Toggles,           \* how many times subscribers may start / stop receiving
@@ -81,7 +83,7 @@ NoSub == ""
 VARIABLES
   bdone,                              \* the broker's context is cancelled
   lpc, lmsg, lstat,                   \* event loop: pc, message held in dist.Send, Stats caller being answered
-  subch, unsubch,                     \* buffers of subCh / unsubCh (capacity Buf)
+  subch, unsubch,                     \* buffers of subCh / unsubCh (capacity CtlBuf)
   smap,                               \* subs: the subscriber set (adt.Map)
   dist,                               \* contents of the distributor
   wpc, wmsg, wseen, wmust, wvis, wto, wpar,   \* dispatch workers
@@ -91,7 +93,7 @@ VARIABLES
   xpc, xctx,                          \* Stats calls
   tpc, vpc, vctx, mu,                 \* Stop calls, Wait calls, b.mu
   pubcalled, unsubcalled, owed, accepted, dispatched, evicted,   \* history
-  toggles, cancels                    \* budgets of external steps
+  toggles, cancels, redund            \* budgets of external steps
 
 loopv == <<lpc, lmsg, lstat>>
 chanv == <<subch, unsubch>>
@@ -102,7 +104,7 @@ pubv  == <<ppc, pnext, pctx, cand>>
 statv == <<xpc, xctx>>
 lifev == <<tpc, vpc, vctx, mu>>
 histv == <<pubcalled, unsubcalled, owed, accepted, dispatched, evicted>>
-budv  == <<toggles, cancels>>
+budv  == <<toggles, cancels, redund>>
 vars  == <<bdone, loopv, chanv, smap, dist, workv, subv, readv, pubv, statv, lifev, histv, budv>>
 
 Init ==
@@ -120,7 +122,7 @@ Init ==
   /\ tpc = [t \in StopIds |-> "idle"] /\ vpc = [v \in WaitIds |-> "idle"] /\ vctx = [v \in WaitIds |-> FALSE]
   /\ mu = Free
   /\ pubcalled = {} /\ unsubcalled = {} /\ owed = {} /\ accepted = {} /\ dispatched = {} /\ evicted = {}
-  /\ toggles = Toggles /\ cancels = CtxCancels
+  /\ toggles = Toggles /\ cancels = CtxCancels /\ redund = Redundant
 
 InRange(w) == wpc[w] \in {"range", "send", "parwait"}
 
@@ -131,11 +133,13 @@ SubCall(s) == /\ scall[s] = "idle" /\ scall' = [scall EXCEPT ![s] = "calling"]
               /\ UNCHANGED <<bdone, loopv, chanv, smap, dist, workv, sctx, ucall, uctx, readv, pubv, statv, lifev, histv, budv>>
 
 \* go b.Unsubscribe(ctx_u, ch_s): only for a channel Subscribe returned
-UnsubCall(s) == /\ AllowUnsub /\ scall[s] = "ret" /\ ucall[s] = "idle"
+UnsubCall(s) == /\ AllowUnsub /\ scall[s] = "ret"
+                /\ \/ ucall[s] = "idle" /\ UNCHANGED redund
+                   \/ ucall[s] = "ret" /\ redund > 0 /\ redund' = redund - 1    \* once more for the same channel
                 /\ ucall' = [ucall EXCEPT ![s] = "calling"]
                 /\ unsubcalled' = unsubcalled \cup {s}
                 /\ UNCHANGED <<bdone, loopv, chanv, smap, dist, workv, scall, sctx, uctx, readv, pubv, statv, lifev,
-                               pubcalled, owed, accepted, dispatched, evicted, budv>>
+                               pubcalled, owed, accepted, dispatched, evicted, toggles, cancels>>
 
 \* publisher p calls Publish(ctx_p, <<p, pnext>>): candidates of the C08 window are fixed now
 PubCall(p) == /\ ppc[p] = "idle" /\ pnext[p] <= K
@@ -149,7 +153,7 @@ PubCall(p) == /\ ppc[p] = "idle" /\ pnext[p] <= K
 Toggle(s) == /\ ~AutoRead /\ toggles > 0 /\ scall[s] = "ret"
              /\ toggles' = toggles - 1
              /\ reading' = [reading EXCEPT ![s] = ~@]
-             /\ UNCHANGED <<bdone, loopv, chanv, smap, dist, workv, subv, chbuf, rcv, pubv, statv, lifev, histv, cancels>>
+             /\ UNCHANGED <<bdone, loopv, chanv, smap, dist, workv, subv, chbuf, rcv, pubv, statv, lifev, histv, cancels, redund>>
 
 StatsCall(x) == /\ xpc[x] = "idle" /\ xpc' = [xpc EXCEPT ![x] = "send"]
                 /\ UNCHANGED <<bdone, loopv, chanv, smap, dist, workv, subv, readv, pubv, xctx, lifev, histv, budv>>
@@ -164,7 +168,7 @@ CancelParent == /\ AllowParentCancel /\ ~bdone /\ bdone' = TRUE
 
 \* the context of one API call is cancelled (before or during the call)
 CancelCtx ==
-  /\ cancels > 0 /\ cancels' = cancels - 1 /\ UNCHANGED toggles
+  /\ cancels > 0 /\ cancels' = cancels - 1 /\ UNCHANGED <<toggles, redund>>
   /\ \/ \E s \in Subs : /\ ~sctx[s] /\ scall[s] \in {"idle", "calling"} /\ sctx' = [sctx EXCEPT ![s] = TRUE]
                         /\ UNCHANGED <<uctx, pctx, xctx, vctx>>
      \/ \E s \in Subs : /\ ~uctx[s] /\ ucall[s] \in {"idle", "calling"} /\ scall[s] = "ret" /\ AllowUnsub
@@ -193,13 +197,13 @@ SubNil(s) == /\ scall[s] = "calling" /\ sctx[s] /\ scall' = [scall EXCEPT ![s] =
 Returned(s) == /\ scall' = [scall EXCEPT ![s] = "ret"]
                /\ reading' = IF AutoRead THEN [reading EXCEPT ![s] = TRUE] ELSE reading
 
-\* Subscribe: subCh <- msgCh with BufferSize > 0 (broker.go:302)
-SubBuffer(s) == /\ Buf > 0 /\ scall[s] = "calling" /\ Len(subch) < Buf
+\* Subscribe: subCh <- msgCh into the channel's buffer (broker.go:302; capacity BufferSize, broker.go:138)
+SubBuffer(s) == /\ CtlBuf > 0 /\ scall[s] = "calling" /\ Len(subch) < CtlBuf
                 /\ subch' = Append(subch, s) /\ Returned(s)
                 /\ UNCHANGED <<bdone, loopv, unsubch, smap, dist, workv, sctx, ucall, uctx, chbuf, rcv, pubv, statv, lifev, histv, budv>>
 
 \* Unsubscribe: unsubCh <- msgCh, buffered (broker.go:310,315); or ctx.Done (broker.go:316)
-UnsubBuffer(s) == /\ Buf > 0 /\ ucall[s] = "calling" /\ Len(unsubch) < Buf
+UnsubBuffer(s) == /\ CtlBuf > 0 /\ ucall[s] = "calling" /\ Len(unsubch) < CtlBuf
                   /\ unsubch' = Append(unsubch, s) /\ ucall' = [ucall EXCEPT ![s] = "ret"]
                   /\ UNCHANGED <<bdone, loopv, subch, smap, dist, workv, scall, sctx, uctx, readv, pubv, statv, lifev, histv, budv>>
 UnsubCtx(s) == /\ ucall[s] = "calling" /\ uctx[s] /\ ucall' = [ucall EXCEPT ![s] = "ret"]
@@ -249,19 +253,19 @@ Delete(s) == /\ smap' = smap \ {s}
              /\ UNCHANGED <<wseen>>
 
 \* case msgCh := <-b.subCh (broker.go:153-154): rendezvous with the caller when unbuffered
-LSubDirect(s) == /\ Buf = 0 /\ lpc = "select" /\ scall[s] = "calling"
+LSubDirect(s) == /\ CtlBuf = 0 /\ lpc = "select" /\ scall[s] = "calling"
                  /\ Returned(s) /\ Ensure(s)
                  /\ UNCHANGED <<bdone, loopv, chanv, dist, wpc, wmsg, wvis, wto, wpar, sctx, ucall, uctx, chbuf, rcv, pubv,
                                 statv, lifev, histv, budv>>
-LSubBuffered == /\ Buf > 0 /\ lpc = "select" /\ subch # <<>>
+LSubBuffered == /\ CtlBuf > 0 /\ lpc = "select" /\ subch # <<>>
                 /\ subch' = Tail(subch) /\ Ensure(Head(subch))
                 /\ UNCHANGED <<bdone, loopv, unsubch, dist, wpc, wmsg, wvis, wto, wpar, subv, readv, pubv, statv, lifev, histv, budv>>
 \* case msgCh := <-b.unsubCh (broker.go:155-156)
-LUnsubDirect(s) == /\ Buf = 0 /\ lpc = "select" /\ ucall[s] = "calling"
+LUnsubDirect(s) == /\ CtlBuf = 0 /\ lpc = "select" /\ ucall[s] = "calling"
                    /\ ucall' = [ucall EXCEPT ![s] = "ret"] /\ Delete(s)
                    /\ UNCHANGED <<bdone, loopv, chanv, dist, wpc, wmsg, wvis, wto, wpar, scall, sctx, uctx, readv, pubv,
                                   statv, lifev, histv, budv>>
-LUnsubBuffered == /\ Buf > 0 /\ lpc = "select" /\ unsubch # <<>>
+LUnsubBuffered == /\ CtlBuf > 0 /\ lpc = "select" /\ unsubch # <<>>
                   /\ unsubch' = Tail(unsubch) /\ Delete(Head(unsubch))
                   /\ UNCHANGED <<bdone, loopv, subch, dist, wpc, wmsg, wvis, wto, wpar, subv, readv, pubv, statv, lifev, histv, budv>>
 
